@@ -474,7 +474,9 @@ def brute_force(case, out):
 
 def rel_close(x, lo, hi, rtol=1e-9):
     fx = Fraction(x)
-    tol = Fraction(rtol) * max(abs(lo), abs(hi), Fraction(1, 10**6))
+    # relative, with the absolute floor of a sum of logarithms of numbers near one (a log-likelihood of -1e-15 — every
+    # column missing or every branch of length ~0 — is known to a few units of round-off, not to 1e-9 of itself)
+    tol = Fraction(rtol) * max(abs(lo), abs(hi), Fraction(1, 10**4))
     return lo - tol <= fx <= hi + tol
 
 
